@@ -39,6 +39,13 @@ def replay(rec: Dict[str, Any]) -> List[Tuple[str, Dict[str, Any], str]]:
         got: Any = None
         for compiled in (False, True):
             try:
+                if not compiled:
+                    # another environment with other decoding options selects with the same expression texts first:
+                    # what an expression text means belongs to the environment of the query it is used with
+                    try:
+                        list(jsonpath.JSONPathEnvironment(unicode_escape=False).query(mq, untag(rec["doc"])).select(*rels, projection=style))
+                    except BaseException:  # noqa: BLE001
+                        pass
                 args = [jsonpath.compile(r) for r in rels] if compiled else rels
                 got = list(jsonpath.query(mq, doc).select(*args, projection=style))
                 obs = [canon(tag(v)) for v in got]
